@@ -1166,6 +1166,8 @@ func (fv *FuncVerifier) verifyUnit(lit *ast.FuncLit) {
 			}
 		}
 	}
+	delete(fv.epochAlloc, st.epoch)
+	fv.noteEpochAlloc(st)
 	fv.entry = st.Clone()
 	pos := body.Lbrace + 1
 	// requires
